@@ -174,6 +174,12 @@ def main(pid):
     if batch:
         rep.sample({"text": meta[batch[0]["id"]][1][:300], "opts": meta[batch[0]["id"]][2],
                     "files": [f["path"] for f in batch[0]["files"]][:10]})
+    if pid == "C06":
+        import mexcallcheck
+        mexcallcheck.run(rep, thorough, "C06")
+        rep.assumptions += ["executed half: modules of the 'mexcall' profile (no float / unsigned char / templated functions or statics / "
+                            "pointer-typed properties / raw-pointer results: these are recorded findings, witnessed by directed modules); the "
+                            "MATLAB side is emulated from the scanned .m files (harness/mexmock/session_driver.cpp)"]
     rep.assumptions += ["the scanners harness/proj_m.py / proj_mexcpp.py (self-tested on the goldens, tools/selftest_scanners.py) are trusted",
                         "expectations are computed from the instantiated tree the implementation built"]
     return rep.finish()
